@@ -821,6 +821,16 @@ class Interp:
             return self.memoised_call(fi, self_val, ca)
         memo = any(d.startswith('cachedmethod') for d in fi.decorators)
         n_eff0 = len(self.st.effects)
+        completed = False
+        if memo:
+            # a direct read of the run's storage in the body is visible in the text, whether or not the body can be executed
+            # to the end (loops of a helper introduced by a refactoring have no invariant of their own)
+            direct = sorted({n.attr for n in ast.walk(fi.node) if isinstance(n, ast.Attribute) and isinstance(n.value, ast.Attribute)
+                             and n.value.attr == '_node_storage'})
+            if direct:
+                caller0 = self.call_stack[-1] if self.call_stack else fi.qualname
+                self.st.oblige_fail(f'{caller0}#memoised[{fi.qualname}]-depends-only-on-its-key-and-run-immutable-structure',
+                                    f'the memoised function reads run state: _node_storage.{direct}')
         module_env = Env({}, None, fi, module=fi.module, cls=fi.cls)
         if fi.is_static:
             self_val = None
@@ -831,13 +841,18 @@ class Interp:
         self.call_stack.append(fi.qualname)
         try:
             self.exec_body(fi.node.body, env)
+            completed = True
             return None
         except ReturnEx as r:
+            completed = True
             return r.value
+        except PyRaise:
+            completed = True
+            raise
         finally:
             self.depth -= 1
             self.call_stack.pop()
-            if memo:
+            if memo and completed:
                 # @cachedmethod is treated as transparent; that is only sound if the body reads nothing but its key and
                 # run-immutable structure: no read of the run's storage
                 reads = [e.fn for e in self.st.effects[n_eff0:] if e.kind == 'call' and e.fn.split('.')[0] in ('DAGNodeStorage', 'HiddenDict')]
@@ -1780,7 +1795,38 @@ class Interp:
         return self.comprehension(e, env, 'list')
 
     def ex_DictComp(self, e, env):
-        raise Unsupported('dict comprehension')
+        # {K: V for ...}: the list of (K, V) pairs of the same generators, folded into a mapping in which a later pair
+        # overwrites an earlier one with the same key
+        import ast as _ast
+        pairs = _ast.ListComp(elt=_ast.Tuple(elts=[e.key, e.value], ctx=_ast.Load()), generators=e.generators)
+        _ast.copy_location(pairs, e)
+        _ast.fix_missing_locations(pairs)
+        lst = self.comprehension(pairs, env, 'list')
+        items = self.st.getf(lst, 'items')
+        st = self.st
+        if isinstance(items, tuple):
+            if all(isinstance(x, tuple) and len(x) == 2 and not is_symbolic(x[0]) for x in items):
+                return self.new_dict({x[0]: x[1] for x in items})
+            m = SymMap.empty()
+            for x in items:
+                if not (isinstance(x, tuple) and len(x) == 2):
+                    raise Unsupported('dict comprehension element')
+                m = m.store(lift(x[0], st), lift(x[1], st))
+            return st.alloc('dict', map=m)
+        from .models import used
+        used(self, 'dict comprehension: the mapping of the (key, value) pairs in order, a later pair overwriting an earlier one')
+        m = SymMap.fresh(st, 'dcomp')
+        wit = st.fresh_func('dcomp_wit', PyV, IntS)
+        i, j = z3.Ints('dci dcj')
+        k = z3.Const('dck', PyV)
+        key_at = lambda idx: PyV.t0(items.at(idx))
+        st.assume(FA([i], z3.Implies(z3.And(i >= 0, i < items.len), z3.And(PyV.is_tup2(items.at(i)), m.has(key_at(i)))),
+                     patterns=[items.at(i)]))
+        st.assume(FA([k], z3.Implies(m.has(k), z3.And(wit(k) >= 0, wit(k) < items.len, key_at(wit(k)) == k,
+                                                      m.at(k) == PyV.t1(items.at(wit(k))))), patterns=[m.has(k)]))
+        st.assume(FA([k, j], z3.Implies(z3.And(m.has(k), j > wit(k), j < items.len), key_at(j) != k),
+                     patterns=[z3.MultiPattern(m.has(k), items.at(j))]))
+        return st.alloc('dict', map=m)
 
     def comprehension(self, e, env, kind):
         if len(e.generators) == 1:
